@@ -238,6 +238,76 @@ pub open spec fn body_is(t: String, p: &str, s: int, e: int, match_case: bool) -
     t@ == (if match_case { utf8_text(p.spec_bytes().subrange(s, e)) } else { lower_spec(utf8_text(p.spec_bytes().subrange(s, e))) })
 }
 
+// ---- hostname normalisation (the closure body of `hostname.map(|host| { .. }).transpose()`, R7 block lift) ------------------------
+pub enum NetworkFilterError { PunycodeError, Other }
+pub uninterp spec fn strip_www(s: Seq<char>) -> Seq<char>;          // str::trim_start_matches("www.")
+pub uninterp spec fn to_lower(s: Seq<char>) -> Seq<char>;           // str::to_lowercase
+pub uninterp spec fn idna_ascii(s: Seq<char>) -> Option<Seq<char>>; // idna::domain_to_ascii
+pub open spec fn ascii_text(s: Seq<char>) -> bool { forall|i: int| 0 <= i < s.len() ==> (#[trigger] s[i] as u32) < 128 }
+#[verifier::external_body]
+fn vf_trim_www(host: &String) -> (r: &str) ensures r@ == strip_www(host@) { host.trim_start_matches("www.") }
+#[verifier::external_body]
+fn vf_as_str(host: &String) -> (r: &str) ensures r@ == host@ { host }
+#[verifier::external_body]
+fn vf_to_lowercase(s: &str) -> (r: String) ensures r@ == to_lower(s@) { s.to_lowercase() }
+#[verifier::external_body]
+fn vf_is_ascii(s: &String) -> (r: bool) ensures r == ascii_text(s@) { s.is_ascii() }
+#[verifier::external_body]
+fn vf_idna(s: &String) -> (r: Result<String, NetworkFilterError>)
+    ensures match r { Ok(h) => idna_ascii(s@) == Some(h@), Err(e) => idna_ascii(s@) is None && e is PunycodeError }
+{ unimplemented!() }
+
+// "'||host' pins the match to the request hostname" — request hostnames are lower-case and punycode, so the rule's host must be
+// brought to the same form: lower-cased, then punycode if it is not ASCII; for `||` rules a leading "www." does not count
+pub open spec fn host_form(host: Seq<char>, hostname_anchor: bool) -> Option<Seq<char>> {
+    let n = to_lower(if hostname_anchor { strip_www(host) } else { host });
+    if ascii_text(n) { Some(n) } else { idna_ascii(n) }
+}
+
+fn vf_normalise_host(host: String, mask: NetworkFilterMask) -> (r: Result<String, NetworkFilterError>)
+    ensures match r {
+        Ok(h) => host_form(host@, mask.has(NetworkFilterMask::IS_HOSTNAME_ANCHOR)) == Some(h@),
+        Err(e) => host_form(host@, mask.has(NetworkFilterMask::IS_HOSTNAME_ANCHOR)) is None,
+    }, // OBL C02.parse.hostname_form
+{
+//@EXTRACT src/filters/network.rs :: impl NetworkFilter :: fn parse
+//@ SAFETY C11.parse.hostname_form.safety
+//@ FROM
+                let hostname_normalised = if mask.contains(NetworkFilterMask::IS_HOSTNAME_ANCHOR) {
+//@ ENDFROM
+//@ TO
+                Ok(hostname)
+//@ ENDTO
+//@ SUBST R6
+    host.trim_start_matches("www.")
+//@ WITH
+    vf_trim_www(&host)
+//@ ENDSUBST
+//@ SUBST R6
+    &host
+//@ WITH
+    vf_as_str(&host)
+//@ ENDSUBST
+//@ SUBST R6
+    hostname_normalised.to_lowercase()
+//@ WITH
+    vf_to_lowercase(hostname_normalised)
+//@ ENDSUBST
+//@ SUBST R6
+    lowercase.is_ascii()
+//@ WITH
+    vf_is_ascii(&lowercase)
+//@ ENDSUBST
+//@ REPLACE R6
+    idna::domain_to_ascii(&lowercase)
+//@ UPTO
+    .map_err(|_| NetworkFilterError::PunycodeError)?
+//@ WITH
+    vf_idna(&lowercase)?
+//@ ENDREPLACE
+//@END
+}
+
 proof fn vf_canary() ensures false {}
 
 } // verus!
